@@ -8,6 +8,8 @@ import (
 	"sort"
 	"strings"
 	"time"
+
+	"golang.org/x/tools/go/ssa"
 )
 
 var verifRoot = "/verif"
@@ -50,6 +52,8 @@ func devMain() {
 	timeout := flag.Int("timeout", 10000, "solver timeout ms")
 	params := flag.String("params", "", "k=v,k=v harness parameters")
 	maxWall := flag.Int("maxwall", 120, "wall-clock budget in seconds per entry")
+	ufmul := flag.Bool("ufmul", false, "product abstraction")
+	summ := flag.String("summaries", "", "target=harnessFn,... function summaries")
 	flag.Parse()
 	t0 := time.Now()
 	u := Unit{Pkg: *pkgPat, Harness: strings.Split(*harness, ",")}
@@ -73,11 +77,19 @@ func devMain() {
 			fmt.Println("no entry", en)
 			os.Exit(2)
 		}
-		res := runEntry(ld.prog, fn, runOpts{Workers: *workers, MaxPaths: *maxPaths, TimeoutMs: *timeout, Params: pm, SmtLog: *logf, MaxWallS: *maxWall})
+		var sums map[string]*ssa.Function
+		if *summ != "" {
+			sums = map[string]*ssa.Function{}
+			for _, kv := range strings.Split(*summ, ",") {
+				i := strings.LastIndex(kv, "=")
+				sums[kv[:i]] = ld.pkgOf[u.Pkg].Func(kv[i+1:])
+			}
+		}
+		res := runEntry(ld.prog, fn, runOpts{Summaries: sums, UFMul: *ufmul, Workers: *workers, MaxPaths: *maxPaths, TimeoutMs: *timeout, Params: pm, SmtLog: *logf, MaxWallS: *maxWall})
 		ex := res.ex
 		fmt.Printf("== %s: paths=%d cut=%d asserts=%d violations=%d unknown=%d boundhits=%d steps=%d queries=%d solver=%v wall=%v\n",
-			en, ex.Paths, ex.Cut, ex.Asserts, len(ex.Viol), ex.Unknown, ex.BoundHits, ex.Steps, res.queries, res.solverTime.Round(time.Millisecond), res.wall.Round(time.Millisecond))
-		fmt.Println("   reached:", ex.Reached)
+			en, ex.Paths, ex.Cut, ex.Asserts, len(ex.Viol), ex.Unknown, ex.BoundHits, ex.Steps+0*ex.ExactRechecks, res.queries, res.solverTime.Round(time.Millisecond), res.wall.Round(time.Millisecond))
+		fmt.Println("   reached:", ex.Reached, "exact rechecks:", ex.ExactRechecks, "unknown sites:", ex.UnknownSites)
 		if len(ex.Errors) > 0 {
 			fmt.Println("   errors:", ex.Errors)
 		}
